@@ -35,7 +35,9 @@ META = dict(
          'on a completed run with n_runs >= 2 or on a merge of >= 2 runs or on a derived (child) object',
     trusted_base=['scipy.optimize L-BFGS-B as the optimiser (its convergence is not part of the property except the '
                   'recovery clause, which is exploration)', 'numpy Generator determinism for a fixed seed'],
-    assumptions=['losses compared to 1e-9 relative, identical computations to 1e-12; recovery within 5%'],
+    assumptions=['losses compared to 1e-9 relative, identical computations to 1e-12; recovery within 5%',
+                 'loss_inferred == loss(params_inferred) is evaluated only when the best L-BFGS-B run did not end with '
+                 'status 2 (ABNORMAL, failed line search): scipy then does not guarantee fun == f(x)'],
 )
 
 
@@ -200,6 +202,18 @@ def run_logged(inf):
     return inf
 
 
+def optimiser_law_holds(R, inf):
+    """scipy's L-BFGS-B guarantees fun == f(x) for its normal terminations; after a failed line search (status 2,
+    'ABNORMAL') it can return the loss of a neighbouring evaluated point together with an x that was never
+    evaluated. The relation loss_inferred == loss(params_inferred) is only evaluated under the optimiser's law;
+    other cases are counted as skipped, never as passed."""
+    if inf.result is not None and int(getattr(inf.result, 'status', 0)) == 2:
+        R.ctx.skipped += 1
+        R.ctx.count('skipped:lbfgsb-abnormal-termination')
+        return False
+    return True
+
+
 def results_of(inf):
     return dict(params={k: float(v) for k, v in inf.params_inferred.items()}, loss=float(inf.loss_inferred),
                 loss_runs=[float(x) for x in inf.loss_runs])
@@ -227,8 +241,9 @@ def g_run(R, P, spec):
     l_own = float(P.plain_loss(inf.get_coal(**p), P.obs))
     l_fresh = float(P.plain_loss(P.coal(**p), P.obs))
     tol = 1e-9
-    R.check(close(inf.loss_inferred, l_fresh, tol, 1e-14), 'run:loss-at-params', nt, expected=l_fresh, observed=float(inf.loss_inferred),
-            params=p, tolerance=tol)
+    if optimiser_law_holds(R, inf):
+        R.check(close(inf.loss_inferred, l_fresh, tol, 1e-14), 'run:loss-at-params', nt, expected=l_fresh, observed=float(inf.loss_inferred),
+                params=p, tolerance=tol)
     R.check(close(l_own, l_fresh, tol, 1e-14), 'run:loss-via-get_coal', nt, expected=l_fresh, observed=l_own, params=p, tolerance=tol)
     # reported distribution
     d, f = inf.dist_inferred, P.coal(**p)
@@ -459,8 +474,9 @@ def g_create_bootstrap(R, P, spec, sc):
     b0 = run_logged(ba[0])
     p = {k: float(v) for k, v in b0.params_inferred.items()}
     l_fresh = float(P.plain_loss(P.coal(**p), np.asarray(b0.observation, dtype=float)))
-    R.check(close(b0.loss_inferred, l_fresh, 1e-9, 1e-14), 'create_bootstrap:loss-on-resampled-observation', ran, expected=l_fresh,
-            observed=float(b0.loss_inferred))
+    if optimiser_law_holds(R, b0):
+        R.check(close(b0.loss_inferred, l_fresh, 1e-9, 1e-14), 'create_bootstrap:loss-on-resampled-observation', ran, expected=l_fresh,
+                observed=float(b0.loss_inferred))
 
 
 def evaluate(ctx, pg, sc):
